@@ -449,3 +449,34 @@ def unshare_jobs(spec):
             ujn = nuj
         seen_journeys.add(ujn)
     return out
+
+
+DST_PAIRS = [("Europe/London", "Africa/Tunis", (2025, 10, 25)), ("Europe/Paris", "Africa/Lagos", (2025, 10, 25)),
+             ("America/New_York", "America/Bogota", (2025, 3, 8)), ("Europe/Lisbon", "Africa/Casablanca", (2025, 10, 25))]
+
+
+def plant_dst_pair(spec, rng):
+    """two usage patterns with the same local window, in a zone that changes its clock during the window and in a zone
+    with the same offset at the start that does not: their UTC series start together and have the same number of
+    hours, but one of them skips (or merges) an hour"""
+    out = copy.deepcopy(spec)
+    pats = list(out["patterns"])
+    if len(pats) < 2:
+        return out
+    za, zb, date = rng.choice(DST_PAIRS)
+    p0, p1 = pats[0], pats[1]
+    if out["patterns"][p1]["country"] == out["patterns"][p0]["country"]:
+        nm = f"c{len(out['countries'])}"
+        out["countries"][nm] = copy.deepcopy(out["countries"][out["patterns"][p0]["country"]])
+        out["patterns"][p1]["country"] = nm
+    out["countries"][out["patterns"][p0]["country"]]["timezone"] = za
+    out["countries"][out["patterns"][p1]["country"]]["timezone"] = zb
+    for q_ in pats[2:]:
+        if out["patterns"][q_]["country"] in (out["patterns"][p0]["country"], out["patterns"][p1]["country"]):
+            continue
+    n = rng.randint(14, 40)
+    hh = rng.randrange(12, 24)
+    for pn in (p0, p1):
+        vals = [0.0 if rng.random() < 0.1 else gen_decimal(rng, 0.5, 500, 2) for _ in range(n)]
+        out["patterns"][pn]["hourly_usage_journey_starts"] = {"start": [date[0], date[1], date[2], hh], "values": vals, "unit": "dimensionless"}
+    return out
